@@ -56,7 +56,7 @@ void run(Ctx& c, EF efn, SF sfn) {
     constexpr size_t W = VW<T>::value;
     const size_t body = SZ / W * W;
     Rng g = c.rng();
-    Tensor<T, D...> a, b, cc;
+    VP_OPERAND((Tensor<T, D...>), a); VP_OPERAND((Tensor<T, D...>), b); VP_OPERAND((Tensor<T, D...>), cc);
     T want[SZ], r0[SZ], w2[SZ];
     int nreg = 1 + (((FLAGS & F_REALS) && !std::is_integral<T>::value) ? 1 : 0) + (((FLAGS & F_SPECIALS) && std::is_floating_point<T>::value) ? 1 : 0);
 #ifndef VP_FP_CONTRACT_OFF
@@ -139,7 +139,7 @@ template <class T, long MAG, int FLAGS, size_t... D, class EF, class SF>
 void run_viewdst(Ctx& c, EF efn, SF sfn) {
     constexpr size_t SZ = Prod<D...>::value;
     Rng g = c.rng(9);
-    Tensor<T, D...> a, b, cc; T want[SZ], r0[SZ], w2[SZ];
+    VP_OPERAND((Tensor<T, D...>), a); VP_OPERAND((Tensor<T, D...>), b); VP_OPERAND((Tensor<T, D...>), cc); T want[SZ], r0[SZ], w2[SZ];
     for (int rep = 0; rep < 2; ++rep) {
         for (size_t i = 0; i < SZ; ++i) { a.data()[i] = draw<T, MAG>(g, 0, false); b.data()[i] = draw<T, MAG>(g, 0, (FLAGS & F_DIV) != 0); cc.data()[i] = draw<T, MAG>(g, 0, false); }
         T s1 = opaque(draw<T, MAG>(g, 0, (FLAGS & F_DIV) != 0)), s2 = opaque(draw<T, MAG>(g, 0, false));
@@ -158,7 +158,7 @@ template <class T, int FLAGS, size_t... D, class EF, class SF>
 void runb(Ctx& c, EF efn, SF sfn) {
     constexpr size_t SZ = Prod<D...>::value;
     Rng g = c.rng(3);
-    Tensor<T, D...> a, b, cc; bool want[SZ];
+    VP_OPERAND((Tensor<T, D...>), a); VP_OPERAND((Tensor<T, D...>), b); VP_OPERAND((Tensor<T, D...>), cc); bool want[SZ];
     int nreg = std::is_floating_point<T>::value ? 3 : 1;
     for (int rep = 0; rep < 3 * nreg; ++rep) {
         int regime = rep % nreg;
